@@ -366,6 +366,12 @@ pub fn boundary_cmds(ds: u16) -> Vec<PromptCmd> {
         }
         add(PrintStmt::MemDs(n as u32), d == 1);
     }
+    // counts around 2^16 (the count is not a 16-bit quantity), where they fit
+    if ds == 0x1234 || ds == 1 {
+        for n in [65_535u32, 65_536, 65_539] {
+            add(PrintStmt::MemDs(n), n % 2 == 0);
+        }
+    }
     v
 }
 
